@@ -45,6 +45,9 @@ func (h *EthHeader) Hash() (hash common.Hash) {
 }
 
 func (h Header) ValidateBasic() error {
+	if len(h.Bloom) > types.BloomByteLength {
+		return sdkerrors.Wrapf(ErrHeader, "header Bloom too long: %d > %d", len(h.Bloom), types.BloomByteLength)
+	}
 	// Verify that the gas limit is <= 2^63-1
 	cap := uint64(0x7fffffffffffffff)
 	if h.GasLimit > cap {
